@@ -78,7 +78,7 @@ TMonotone == last.op \in {"ing_int", "ing_ext", "egr"} => MonotoneCall(last.b, [
 TEgressForward == last.op = "egr" => EgressForward(last.b, [k |-> last.k, p |-> p])
 TXoverForward == last.op \in {"ing_int", "ing_ext"} => XoverForward(last.b, [k |-> last.k, p |-> p])
 \* C12 on well-formed headers: the logical position survives reversal
-TPosition == (last.op = "rev" /\ last.k = "ok" /\ WF(last.b)) =>
+TPosition == (last.op = "rev" /\ last.k = "ok" /\ WFFast(last.b)) =>
                /\ p.ch < Len(p.hop) /\ p.hop[p.ch + 1].id = last.b.hop[last.b.ch + 1].id
                /\ p.ci < Len(p.inf) /\ p.inf[p.ci + 1].id = last.b.inf[last.b.ci + 1].id
 
